@@ -147,3 +147,261 @@ class BaseStart(Contract):
             "registry-kept": z3.And(s.sel("dict.has", W.REGD) == s0.sel("dict.has", W.REGD),
                                     s.sel("dict.val", W.REGD) == s0.sel("dict.val", W.REGD)),
         }
+
+
+# =========================================================================== activation
+class ActivateInitial(Contract):
+    """engine.activate_initial_state(): just the drain loop (C11: on an activated machine the
+    queue is empty, so nothing runs)."""
+
+    qualnames = [SYNC + "activate_initial_state"]
+    params = [("self", "SyncEngine")]
+    returns = "Val"
+    raises = True
+    modifies = ProcessingLoop.modifies
+    properties = ["C11"]
+
+    pre = ProcessingLoop.pre
+    post = ProcessingLoop.post
+    exc_post = ProcessingLoop.exc_post
+
+
+@register
+class SyncActivateInitial(ActivateInitial):
+    pass
+
+
+@register
+class AsyncActivateInitial(AsyncBinding, ActivateInitial):
+    qualnames = [ASYN + "activate_initial_state"]
+    params = [("self", "AsyncEngine")]
+
+
+@register
+class SyncStart(Contract):
+    """SyncEngine.start (C11): construction over a model without a state activates the start state
+    at once; over a stored state it does nothing at all."""
+
+    qualnames = [SYNC + "start"]
+    params = [("self", "SyncEngine")]
+    returns = "None"
+    raises = True
+    modifies = ProcessingLoop.modifies
+    properties = ["C11"]
+
+    def pre(self, s, a):
+        f = ProcessingLoop.pre(self, s, a)
+        f["construction:queue-empty-lock-free"] = z3.And(qh(s) == qt(s), z3.Not(locked(s)))
+        return f
+
+    def post(self, s0, s, a, r):
+        n0 = s0.g("ntrig")
+        first = z3.Select(s.g("trig_log"), n0)
+        return {
+            "C11|stored-state:no-callback-no-change": z3.Implies(mstate(s0) != NONE, z3.And(
+                s.g("ntrig") == n0, s.g("ng") == s0.g("ng"), mstate(s) == mstate(s0), qh(s) == qt(s), z3.Not(locked(s)))),
+            "C11|no-state:initial-event-is-the-first-one-processed": z3.Implies(mstate(s0) == NONE, z3.And(
+                s.g("ntrig") >= n0 + 1, s.sel("Event.id", s.sel("TriggerData.event", first)) == INITIAL_ID,
+                z3.Implies(rtc(s0), z3.And(qh(s) == qt(s), z3.Not(locked(s)))))),
+        }
+
+    def exc_post(self, s0, s, a, x):
+        return {"C11|stored-state:cannot-raise": mstate(s0) == NONE}
+
+
+# =========================================================================== Event.__call__
+RESERVED = ["event_data", "event", "source", "target", "state", "model", "machine", "transition"]  # C07, from the property
+
+
+def kwargs_filtered(s0, s, src_kwargs, td):
+    """C07: the queued item's kwargs are the caller's minus the eight built-in names."""
+    kw = s.sel("TriggerData.kwargs", td)
+    k = z3.Const("k!kf", Str)
+    reserved = z3.Or(*[k == z3.StringVal(n) for n in RESERVED])
+    return z3.And(
+        z3.ForAll([k], z3.Select(s.sel("dict.has", kw), k) == z3.And(z3.Select(s0.sel("dict.has", src_kwargs), k), z3.Not(reserved))),
+        z3.ForAll([k], z3.Implies(z3.Select(s.sel("dict.has", kw), k),
+                                  z3.Select(s.sel("dict.val", kw), k) == z3.Select(s0.sel("dict.val", src_kwargs), k))))
+
+
+class EventCall(Contract):
+    """Event.__call__ (C03 nested sends are queued and return None; the outermost call drains;
+    C07 reserved names are stripped; C13 every calling style ends here)."""
+
+    qualnames = [EVQ + "Event.__call__"]
+    params = [("self", "BoundEvent"), ("*args", "tuple"), ("**kwargs", "dict[str,Val]")]
+    returns = "Val"
+    raises = True
+    modifies = ProcessingLoop.modifies
+    properties = ["C03", "C07", "C13"]
+
+    def pre(self, s, a):
+        f = dict(wf_world(s))
+        f.update(wf_class(s))
+        f["registry-wf"] = wf_registry(s)
+        f["queue-items-valid"] = queue_items_valid(s)
+        f["bound-to-this-machine"] = s.sel("Event._sm", a.self.e) == W.SM
+        f["kwargs-is-not-the-registry"] = a.kwargs.e != W.REGD
+        f["nonrtc:queue-empty-between-events"] = z3.Implies(z3.Not(rtc(s)), qh(s) == qt(s))
+        return f
+
+    def _queued(self, s0, s, a):
+        t0 = qt(s0)
+        td = z3.Select(qarr(s), t0)
+        return z3.And(
+            qt(s) >= t0 + 1, prefix_kept(qarr(s0), qarr(s), t0),
+            td >= s0["ghost.alloc"], td < s["ghost.alloc"],
+            s.sel("TriggerData.machine", td) == W.SM, s.sel("TriggerData.event", td) == a.self.e,
+            s.sel("TriggerData.args", td) == a.args.e)
+
+    def post(self, s0, s, a, r):
+        res = ref_of(r)
+        n0, h0, t0 = s0.g("ntrig"), qh(s0), qt(s0)
+        nested = z3.And(rtc(s0), locked(s0))
+        outer = z3.And(rtc(s0), z3.Not(locked(s0)))
+        nonrtc = z3.Not(rtc(s0))
+        td = z3.Select(qarr(s), t0)
+        return {
+            "C03,C13|the-event-is-queued-as-one-item": self._queued(s0, s, a),
+            "C07|reserved-names-stripped-from-user-kwargs": kwargs_filtered(s0, s, a.kwargs.e, td),
+            "C03|nested:queued-not-started-returns-None": z3.Implies(nested, z3.And(
+                res == NONE, qt(s) == t0 + 1, qh(s) == h0, s.g("ntrig") == n0, s.g("ng") == s0.g("ng"),
+                mstate(s) == mstate(s0), locked(s))),
+            "C03|outer:drained-in-send-order": z3.Implies(outer, z3.And(
+                qh(s) == qt(s), z3.Not(locked(s)), s.g("ntrig") - n0 == qt(s) - h0,
+                z3.Select(s.g("trig_log"), n0 + t0 - h0) == td, res != W.SENT)),
+            "C03|nonrtc:runs-now-returns-own-result": z3.Implies(nonrtc, z3.And(
+                z3.Select(s.g("trig_log"), n0) == td, z3.Select(s.g("trig_res"), n0) == res)),
+        }
+
+    def exc_post(self, s0, s, a, x):
+        nested = z3.And(rtc(s0), locked(s0))
+        outer = z3.And(rtc(s0), z3.Not(locked(s0)))
+        return {
+            "C13|queued-before-anything-could-raise": self._queued(s0, s, a),
+            "C03|nested:never-raises": z3.Not(nested),
+            "C04|outer:lock-released": z3.Implies(outer, z3.Not(locked(s))),
+            "C04|outer:queue-dropped-on-Exception": z3.Implies(z3.And(outer, is_exception(x)), qh(s) == qt(s)),
+        }
+
+
+@register
+class SyncEventCall(EventCall):
+    def reveal(self, s, a):
+        from .callbacks import AWAITABLE
+        v = z3.Const("v!ec", Int)
+        # ENG: a SyncEngine machine has no coroutine callbacks, so what the loop returns is a plain value
+        return {"sync-world:results-are-not-awaitable": z3.ForAll([v], z3.Not(AWAITABLE(v)))}
+
+
+# =========================================================================== StateMachine.send
+# Attribute table of the machine object, as `getattr(self, name, default)` sees it (DESIGN 4.C13):
+# a declared event name yields (through the Event descriptor) a BoundEvent of that id bound to the
+# machine; any other existing attribute yields that attribute; a missing one yields the default.
+IS_EVENT_NAME = z3.Function("IS_EVENT_NAME", Str, Bool)  # name is a declared event of the class
+HAS_ATTR = z3.Function("HAS_ATTR", Str, Bool)  # the machine object has an attribute of that name
+ATTR_VAL = z3.Function("ATTR_VAL", Str, Int)  # ... and this is it
+IS_BOUND_EVENT_OBJ = z3.Function("IS_BOUND_EVENT_OBJ", Int, Bool)
+
+
+def sm_getattr(ex, path, obj, name, default, node):
+    if not isinstance(name, S):
+        raise Unsupported("getattr(machine, <non-str>)")
+    out = []
+    for p, is_ev in ex.branch(path, IS_EVENT_NAME(name.e)):
+        if is_ev:
+            # Event.__get__(instance): BoundEvent(id=self.id, name=self.name, _sm=instance)
+            rs = CLASSES["BoundEvent"].ctor(ex, p, CallArgs([], {"id": name, "name": name, "_sm": obj}), node)
+            out += rs
+            continue
+        for p2, has in ex.branch(p, HAS_ATTR(name.e)):
+            if has:
+                v = ATTR_VAL(name.e)
+                # an attribute that is not a declared event is not a BoundEvent (events are the only
+                # BoundEvent-valued attributes the metaclass and __get__ produce on the machine)
+                p2.assume(z3.Not(IS_BOUND_EVENT_OBJ(v)), v != NONE)
+                out.append((p2, O(v, "Val")))
+            elif default is not None:
+                out.append((p2, default))
+            else:
+                out.append((p2, Raise(Exc("AttributeError"))))
+    return out
+
+
+CLASSES["StateMachine"].getattr_fn = sm_getattr
+# `self.__class__._events` (Dict[Event, None], keys compare as str): membership of a name
+CLASSES["StateMachine"].py_fields["__class__"] = Py(("class", "StateMachineClass"))
+ClassModel("StateMachineClass", py_fields={"_events": Py(("eventnames",))})
+
+
+@model
+def call_arbitrary_attribute(ex, path, recv, ca, node):
+    """Calling some attribute of the machine that is not an event: exactly what C13 forbids."""
+    ex.run.oblige(path, "call", f"C13|send-never-invokes-an-attribute-that-is-not-a-declared-event@{getattr(node, 'lineno', 0)}",
+                  z3.BoolVal(False))
+    return [(path, O(fresh("arbitrary", Int), "Val"))]
+
+
+CLASSES["Val"].methods["__call__"] = call_arbitrary_attribute
+CLASSES["Val"].isinstance_fn = lambda path, v, clsname: (
+    z3.And(v.e != NONE, IS_BOUND_EVENT_OBJ(v.e)) if clsname in ("BoundEvent", "Event") else z3.BoolVal(False))
+CLASSES["Val"].callable_fn = lambda path, v: z3.BoolVal(True)
+
+
+class Send(Contract):
+    """StateMachine.send(name, *args, **kwargs) (C13): for EVERY string the object that gets called
+    is a bound event of that name on this machine — so a name that is not a declared event is just
+    an unknown event (C01's no-candidate clause), never another attribute of the machine."""
+
+    qualnames = [SMQ + "send"]
+    params = [("self", "StateMachine"), ("event", "str"), ("*args", "tuple"), ("**kwargs", "dict[str,Val]")]
+    returns = "Val"
+    raises = True
+    modifies = ProcessingLoop.modifies
+    properties = ["C13"]
+
+    def pre(self, s, a):
+        f = dict(wf_world(s))
+        f.update(wf_class(s))
+        f["registry-wf"] = wf_registry(s)
+        f["queue-items-valid"] = queue_items_valid(s)
+        f["self-is-machine"] = a.self.e == W.SM
+        f["kwargs-is-not-the-registry"] = a.kwargs.e != W.REGD
+        f["nonrtc:queue-empty-between-events"] = z3.Implies(z3.Not(rtc(s)), qh(s) == qt(s))
+        return f
+
+    def post(self, s0, s, a, r):
+        t0 = qt(s0)
+        td = z3.Select(qarr(s), t0)
+        ev = s.sel("TriggerData.event", td)
+        return {
+            "C13|exactly-this-event-name-is-sent-to-this-machine": z3.And(
+                qt(s) >= t0 + 1, td >= s0["ghost.alloc"], s.sel("TriggerData.machine", td) == W.SM,
+                s.sel("Event.id", ev) == a.event.e, s.sel("Event._sm", ev) == W.SM,
+                s.sel("TriggerData.args", td) == a.args.e),
+            "C07|reserved-names-stripped": kwargs_filtered(s0, s, a.kwargs.e, td),
+        }
+
+    def exc_post(self, s0, s, a, x):
+        t0 = qt(s0)
+        td = z3.Select(qarr(s), t0)
+        ev = s.sel("TriggerData.event", td)
+        return {
+            # whatever escapes comes out of processing the event that was queued (e.g. TransitionNotAllowed)
+            "C13|even-when-it-raises-the-event-was-queued-first": z3.And(
+                td >= s0["ghost.alloc"], s.sel("Event.id", ev) == a.event.e, s.sel("Event._sm", ev) == W.SM),
+        }
+
+
+@register
+class SyncSend(Send):
+    reveal = SyncEventCall.reveal
+
+
+def _eventnames_contains(ex, path, container, item):
+    from pyvc.models import _as_z3str
+    return IS_EVENT_NAME(_as_z3str(path, item))
+
+
+from pyvc.execu import CONTAINS_HOOKS  # noqa: E402
+CONTAINS_HOOKS["eventnames"] = _eventnames_contains
